@@ -1,10 +1,100 @@
-use crate::State;
+// C01 / C02: GameData handles on synthetic installations, raw dat reads.
+use crate::ops_patch::{casedir, rle, unhex};
 use crate::util::*;
-use serde_json::Value;
+use crate::{State, guarded};
+use physis::gamedata::GameData;
+use physis::sqpack::SqPackData;
+use serde_json::{Value, json};
+use std::collections::HashMap;
 
 #[derive(Default)]
-pub struct ArchiveState {}
+pub struct ArchiveState {
+    pub handles: HashMap<i64, GameData>,
+    pub dirs: HashMap<i64, std::path::PathBuf>,
+}
 
-pub fn run(_st: &mut State, op: &str, _cmd: &Value) -> Value {
-    toolerror(&format!("unknown op {op}"))
+pub fn write_fs(root: &std::path::Path, fs: &Value) {
+    for f in fs.as_array().cloned().unwrap_or_default() {
+        let mut p = root.to_path_buf();
+        p.push(f["p"].as_str().unwrap_or("x"));
+        if let Some(parent) = p.parent() {
+            std::fs::create_dir_all(parent).unwrap();
+        }
+        if let Some(h) = f["hex"].as_str() {
+            std::fs::write(&p, unhex(h)).unwrap();
+        } else {
+            std::fs::create_dir_all(&p).unwrap();
+        }
+    }
+}
+
+pub fn run(st: &mut State, op: &str, cmd: &Value) -> Value {
+    let h = geti(cmd, "h");
+    match op {
+        "archive.open" => {
+            if let Some(old) = st.archive.dirs.remove(&h) {
+                st.archive.handles.remove(&h);
+                let _ = std::fs::remove_dir_all(old);
+            }
+            let base = casedir(st, cmd, &format!("arch{h}_"));
+            let mut game = base.clone();
+            game.push("game");
+            std::fs::create_dir_all(&game).unwrap();
+            write_fs(&game, &cmd["_fs"]);
+            let dir = game.to_str().unwrap().to_string();
+            let mut opened = None;
+            let r = guarded(|| {
+                let g = GameData::from_existing(crate::ops_names::platform(geti(cmd, "plat")), &dir);
+                let v = opt(g.as_ref(), |g| {
+                    json!(g.repositories.iter().map(crate::ops_names::repo_num).collect::<Vec<i64>>())
+                });
+                opened = g;
+                value(v)
+            });
+            if let Some(g) = opened {
+                st.archive.handles.insert(h, g);
+            }
+            st.archive.dirs.insert(h, base);
+            r
+        }
+        "archive.close" => {
+            st.archive.handles.remove(&h);
+            if let Some(old) = st.archive.dirs.remove(&h) {
+                let _ = std::fs::remove_dir_all(old);
+            }
+            value(json!(true))
+        }
+        "archive.query" => {
+            let Some(g) = st.archive.handles.get_mut(&h) else {
+                return json!({"outcome": "nohandle"});
+            };
+            let path = get_str(&cmd["path"]);
+            match cmd["q"].as_str().unwrap_or("") {
+                "exists" => guarded(|| value(json!(g.exists(&path)))),
+                "find_offset" => guarded(|| {
+                    value(opt(g.find_offset(&path), |o| json!({"q": o / 128, "r": o % 128})))
+                }),
+                "extract" => guarded(|| value(opt(g.extract(&path), |b| rle(&b)))),
+                _ => toolerror("bad query"),
+            }
+        }
+        "archive.read" => {
+            // SqPackData::read_from_offset on a dat file given in the script
+            let base = casedir(st, cmd, "dat");
+            let mut p = base.clone();
+            p.push("000000.win32.dat0");
+            std::fs::write(&p, unhex(cmd["_dat"].as_str().unwrap_or(""))).unwrap();
+            let ps = p.to_str().unwrap().to_string();
+            let off = geti(cmd, "off") as u64;
+            let r = guarded(|| {
+                let Some(mut d) = SqPackData::from_existing(&ps) else {
+                    return fail();
+                };
+                value(opt(d.read_from_offset(off), |b| rle(&b)))
+            });
+            let _ = std::fs::remove_dir_all(&base);
+            r
+        }
+        _ => toolerror(&format!("unknown op {op}")),
+    }
 }
